@@ -132,9 +132,11 @@ CLAIMS = {
         text="Bounded model checking of fragments of the textual writer/scanner: (1) the real MIR_output_item/_insn/_op terminates memory-safely and "
              "reads only the union members its item kind has, on one directly constructed item per kind (import, export, forward, proto with blk/rblk, "
              "func with each operand form incl. alias annotations, data of every element type, bss, ref, lref, expr) with symbolic payloads; "
-             "(2) string escapes: MIR_output_str into the real scanner's string reader for ALL byte strings of length <= 3 ending in NUL (both tiers) and all strings of length <= 2 (quick) / 3 (thorough).",
+             "(2) string escapes: MIR_output_str into the real scanner's string reader for ALL byte strings of length <= 3 ending in NUL (both tiers) and all strings of length <= 2 (quick) / 3 (thorough); "
+             "(3) operand syntax: the text the real MIR_output_op prints for a symbolic memory operand (base/index each absent or any register, disp, scale, alias/nonalias) is read "
+             "back by a reference reader written from MIR.md's operand syntax and must denote the operand printed.",
         note="NOT decided: integer and floating-point immediates (formatting/parsing is libc's: %.*e, strtod - no CBMC model), whole-module text "
-             "identity and execution identity after re-scan, re-scanning of names/labels/memory-operand syntax.  fprintf is a harness stub (literal "
+             "identity and execution identity after re-scan, re-scanning by the REAL scanner's operand branch (fragment 3 uses a reference reader, memory operands only).  fprintf is a harness stub (literal "
              "text, %s, %c, %03o exact; numeric conversions a placeholder); ASCII/C locale.  KNOWN FINDING (known-findings.txt): a string whose last "
              "byte is not NUL gains a trailing NUL on the round trip (str.any.*); strings ending in NUL round-trip exactly (str.nulterm.*).",
         technique=TECH),
@@ -183,7 +185,7 @@ CLAIMS = {
              "contents, lref labels are the originals, vars/registers are restored, and a second cycle behaves identically.",
         note="NOT proved: that no generator pass writes through a pointer into original_insns (whole-generator frame condition); the already-generated "
              "path of generate_func_code (mir-gen.c) is not encoded.  <= 3 (quick) / 5 (thorough) insns, <= 2/3 generator edits and temps per cycle, "
-             "2 cycles, <= 2 lref items.  State constructed directly; HTAB model.",
+             "2 cycles, <= 2 lref items; one obligation family with a global hard-register variable.  State constructed directly; HTAB model.",
         technique=TECH),
     "C02": dict(
         level="model_checking", design="DESIGN.md section 3, C02 and section 8",
@@ -191,7 +193,9 @@ CLAIMS = {
              "on the icode produced by the REAL MIR_link/generate_icode (so the link-time shortcuts are included) and (2) the machine code emitted by "
              "the REAL generator at -O2 and -O0 (quick) / -O0..-O3 (thorough), lifted to C (E3), are run from ALL operand values (64-bit integers, "
              "all float/double/long-double bit patterns, arbitrary memory contents) and compared with ref/mir_ref.h, written from MIR.md: width, "
-             "signedness, extension of narrow loads, truncation of stores, NaN comparisons, overflow-flag branches, conversions.",
+             "signedness, extension of narrow loads, truncation of stores, NaN comparisons, overflow-flag branches, conversions.  Operand shapes: "
+             "register (incl. dst==src aliasing), boundary immediates in either position, both operands constant (the generator's folding), memory operands "
+             "in each position, store followed by an overlapping load of another width/offset (argument buffer and alloca block), fp immediates.",
         note="Immediates are compile-time constants: boundary grid.  Undefined cases per MIR.md assumed away; 32-bit results compared on the low half.  "
              "Interpreter built with the repo's MIR_DIRECT_DISPATCH switch.  Interpreter-leg obligations for DMUL/DDIV/LD* arithmetic and mulo-family "
              "flags got no verdict with any back end and are excluded from both tiers (listed in the evidence; the generated-code leg decides the same "
@@ -205,7 +209,8 @@ CLAIMS = {
              "from the same symbolic arguments, buffer contents and external results, and asserts equal results, equal final memory and equal "
              "external-call logs - for ALL inputs within the loop bounds.  Corpus: 9 mir-tests, hand-written files and 8 generated families (CFG "
              "shapes incl. switch/laddr/jmpi, memory operand forms with aliasing stores/loads, register pressure > 14 int / 14 fp, alloca, overflow "
-             "insns, 64/32-bit/f/d mixes, calls with live results, GVN-foldable constants incl. never-executed trapping divisions).",
+             "insns, 64/32-bit/f/d mixes, calls with live results, GVN-foldable constants incl. every compare opcode on sign/width-discriminating pairs and "
+             "never-executed trapping divisions, overlapping stores into alloca blocks, compares with memory operands).",
         note="Programs outside the corpus; <= 60 insns, trip counts <= 4, <= 200 executed icode insns per activation, depth <= 3, <= 4 external calls; "
              "compile-time constants concrete (the symbolic-constant fold sub-check of DESIGN section 3 is not built); blk types, variadic definitions, "
              "long double data and mir-tests 3/9/10/11/13/15/16 excluded (reasons in the evidence); lazy-BB code is C03's non-claim.  Trusted base as C05.",
